@@ -168,8 +168,10 @@ def r2_naming(ctx):
         fn = ast.fn(f, "populate", impl_self=ty)
         t = flat(show(fn.body)) if fn else ""
         m = re.search(r'args\.get\((.*?)\)', t)
-        if not m or m.group(1) not in ('"%s"' % val, "VAR_COUNT_KEY"):
-            r.viol("R2:%s::populate#count-arg" % ty, "count argument is looked up as %s, the count variable is %r" % (m.group(1) if m else None, val), file=f)
+        # (the count is looked up under the plural's / range's own count key - `count` unless renamed; decided by the populate
+        # evaluation of R0 on a plural whose count is called `n`; here only: the lookup is not a constant other than that)
+        if m and m.group(1) in ('"%s"' % val, "VAR_COUNT_KEY"):
+            r.viol("R2:%s::populate#count-arg" % ty, "the count argument is looked up under the fixed name %s: a count renamed by an earlier reference (`{\"count\": \"{{ n }}\"}`) can then no longer be supplied as `n` (%r)" % (m.group(1) if m else None, val), file=f)
         else:
             r.inst("%s::populate" % ty, "args.get(%s) == VAR_COUNT_KEY" % m.group(1))
     fn = ast.fn("leptos_i18n_parser/src/utils/key.rs", "count", impl_self="Key")
